@@ -336,6 +336,15 @@ Definition find_base_url (sess_control : option str) (content_base : option (lis
 
 Definition control_of (i : N) : str := s_trackid ++ dec i.
 (* server_conn.go:345 *)
+(* ServerStream.descForDescribe: the medias handed to a client - ONVIF back channels only when the client asked for
+   them - each with the control attribute trackID=<its index in the stream's OWN media list> (server_stream.go) *)
+Fixpoint describe_from (i : N) (bc : list bool) (req : bool) : list (N * str) :=
+  match bc with
+  | [] => []
+  | b :: t => (if negb b || req then [(i, control_of i)] else []) ++ describe_from (i + 1) t req
+  end.
+Definition describe (bc : list bool) (req : bool) : list (N * str) := describe_from 0 bc req.
+
 Definition content_base_of (req_url : url) : str := print req_url ++ [c_slash].
 (* what the server parses out of the request line the client marshals for URL x *)
 Definition wire (x : url) : str := print (strip_cred x).
@@ -594,5 +603,10 @@ Definition run (c : list N) : list N :=
           | _ => out_of_model
           end
       | _ => bad_case end
+  (* 12 requestBackChannels n isBackChannel_1..n : the described medias (stream index, control) *)
+  | 12 :: req :: n :: t =>
+      if negb (nlen t =? n) then bad_case else
+      let d := describe (map getb t) (getb req) in
+      nlen d :: flat_map (fun x => fst x :: putl (snd x)) d
   | _ => bad_case
   end.
